@@ -37,6 +37,9 @@ pub struct Registry {
     pub dyn_stack: std::cell::RefCell<Vec<String>>,
     /// builder L: enum name -> variants with tuple payloads
     pub enum_data: HashMap<String, Vec<(String, Vec<Ty>)>>,
+    /// builder L: statements the unit keeps abstract: (needle in the statement's source, Lean function,
+    /// expressions read, variables written)
+    pub abstract_stmts: Vec<(String, String, Vec<String>, Vec<String>)>,
 }
 
 pub fn int_ty(name: &str) -> Option<&'static str> {
@@ -86,6 +89,8 @@ pub struct FnTr<'a> {
     pub extra_defs: Vec<String>,
     /// builder L: the `&mut` parameters of the function being translated (state-passing translation)
     pub muts: Vec<String>,
+    /// builder L: generic type parameters bounded by a trait the unit models as a struct (`M: Trait`)
+    pub tparams: HashMap<String, Ty>,
 }
 
 type Env = HashMap<String, Ty>;
@@ -118,6 +123,32 @@ impl<'a> FnTr<'a> {
                 }
                 if let Some(i) = int_ty(&name) {
                     return Ok(Ty::Int(i));
+                }
+                if tp.path.segments.len() == 1 {
+                    if let Some(t) = self.tparams.get(&name) {
+                        return Ok(t.clone());
+                    }
+                }
+                // builder L: `heapless::Vec<T, CAP>` — a list with a capacity
+                if name == "Vec" {
+                    if let PathArguments::AngleBracketed(ab) = &last.arguments {
+                        let args: Vec<&GenericArgument> = ab.args.iter().collect();
+                        if args.len() == 2 {
+                            if let GenericArgument::Type(el) = args[0] {
+                                let el = self.ty(el)?;
+                                let cap = match args[1] {
+                                    GenericArgument::Type(Type::Path(cp)) => {
+                                        let cn = cp.path.segments.last().unwrap().ident.to_string();
+                                        self.reg.consts.get(&cn).map(|(_, l)| l.clone()).ok_or(format!("Vec capacity {} is not a known constant", cn))?
+                                    }
+                                    GenericArgument::Const(Expr::Lit(ExprLit { lit: Lit::Int(i), .. })) => i.base10_digits().to_string(),
+                                    _ => return Err("unsupported Vec capacity".into()),
+                                };
+                                return Ok(Ty::HVec(Box::new(el), cap));
+                            }
+                        }
+                    }
+                    return Err("unsupported Vec type".into());
                 }
                 if name == "bool" {
                     return Ok(Ty::Bool);
@@ -178,6 +209,26 @@ impl<'a> FnTr<'a> {
             // builder L: statements of features the harness does not build with are not there
             if stmt_cfg_disabled(s) {
                 continue;
+            }
+            // builder L: a statement the unit declares abstract (an iterator pipeline, …): an uninterpreted
+            // function of what it reads, assigned to what it writes
+            if !self.reg.abstract_stmts.is_empty() && !matches!(s, Stmt::Expr(Expr::If(_), _) | Stmt::Expr(Expr::Match(_), _) | Stmt::Expr(Expr::Block(_), _)) {
+                let text: String = quote::quote!(#s).to_string().chars().filter(|c| !c.is_whitespace()).collect();
+                if let Some((_, lean, reads, writes)) = self.reg.abstract_stmts.iter().find(|(n, _, _, _)| text.contains(n.as_str())).cloned() {
+                    let mut args = vec![];
+                    for r in &reads {
+                        let e: Expr = syn::parse_str(r).map_err(|e| format!("abstract statement: {}", e))?;
+                        let (t, _) = self.ex(&e, env, &mut st, None)?;
+                        args.push(paren(&t));
+                    }
+                    for w in &writes {
+                        if !env.contains_key(w) {
+                            return Err(format!("abstract statement writes unknown variable {}", w));
+                        }
+                    }
+                    st.push((tuple_of(&writes), Rhs::Pure(format!("{} {}", lean, args.join(" ")))));
+                    continue;
+                }
             }
             match s {
                 Stmt::Local(l) => {
@@ -243,6 +294,7 @@ impl<'a> FnTr<'a> {
                     env.insert(c.ident.to_string(), ty);
                     st.push((name, Rhs::Pure(term)));
                 }
+                Stmt::Item(Item::Use(_)) => {}
                 Stmt::Item(_) => return Err("unsupported nested item".into()),
                 Stmt::Macro(m) => {
                     let name = path_str(&m.mac.path);
@@ -619,6 +671,7 @@ impl<'a> FnTr<'a> {
             local_fns: HashMap::new(),
             extra_defs: vec![],
             muts: vec![],
+            tparams: HashMap::new(),
         };
         let r = sub.function(sig, body, &lean_name);
         self.reg.dyn_stack.borrow_mut().pop();
@@ -641,6 +694,7 @@ impl<'a> FnTr<'a> {
             local_fns: self.local_fns.clone(),
             extra_defs: vec![],
             muts: vec![],
+            tparams: HashMap::new(),
         };
         let lean_name = format!("{}.{}", self.fn_prefix, name);
         let (text, sig) = sub.function(&f.sig, &f.block, &lean_name)?;
@@ -656,6 +710,19 @@ impl<'a> FnTr<'a> {
         let mut env: Env = HashMap::new();
         let mut params = vec![];
         self.muts = vec![];
+        // builder L: `M: Trait` where the unit models `Trait` as a struct of its observable methods
+        for gp in &sig.generics.params {
+            if let GenericParam::Type(tp) = gp {
+                for b in &tp.bounds {
+                    if let TypeParamBound::Trait(tb) = b {
+                        let bn = tb.path.segments.last().unwrap().ident.to_string();
+                        if self.reg.structs.contains_key(&bn) {
+                            self.tparams.insert(tp.ident.to_string(), Ty::Named(bn));
+                        }
+                    }
+                }
+            }
+        }
         for a in &sig.inputs {
             match a {
                 FnArg::Receiver(r) => {
@@ -1511,6 +1578,13 @@ impl<'a> FnTr<'a> {
             let t = unify(&ta, &tb)?;
             return Ok((format!("({} {} {})", segs[segs.len() - 1], paren(&a), paren(&b)), t));
         }
+        // builder L: `heapless::Vec::new()`
+        if segs.len() >= 2 && segs[segs.len() - 2] == "Vec" && segs[segs.len() - 1] == "new" && c.args.is_empty() {
+            return match &expect {
+                Some(t @ Ty::HVec(..)) => Ok(("[]".into(), t.clone())),
+                _ => Err("Vec::new() without a known type".into()),
+            };
+        }
         // builder L: constructor of an enum variant with a payload
         if segs.len() >= 2 {
             let tyn = if segs[segs.len() - 2] == "Self" { self.self_ty.clone().unwrap_or_default() } else { segs[segs.len() - 2].clone() };
@@ -1761,6 +1835,37 @@ impl<'a> FnTr<'a> {
                     Ok((format!("(List.find? (fun {} => {}) {})", pn, ct, paren(&r)), Ty::Opt(el.clone())))
                 }
                 _ => Err(format!("unsupported slice method {}", name)),
+            },
+            // builder L: heapless::Vec<T, CAP> as a list with a capacity; mutators write the receiver place back
+            Ty::HVec(el, cap) => match name.as_str() {
+                "len" => Ok((format!("(Int.ofNat {}.length)", paren(&r)), Ty::Int("usize"))),
+                "is_empty" => Ok((format!("{}.isEmpty", paren(&r)), Ty::Bool)),
+                "iter" | "as_slice" => Ok((r, Ty::Arr(el.clone()))),
+                "clear" | "push" | "extend_from_slice" => {
+                    let (root, fields, _) = self.place(&m.receiver, env)?;
+                    let (res, rty, newv) = match name.as_str() {
+                        "clear" => ("()".to_string(), Ty::Unit, "[]".to_string()),
+                        "push" => {
+                            let (a, _) = self.ex(&m.args[0], env, st, Some((**el).clone()))?;
+                            (format!("(Rt.hvPushOk {} {})", paren(cap), paren(&r)), Ty::Bool, format!("(Rt.hvPush {} {} {})", paren(cap), paren(&r), paren(&a)))
+                        }
+                        _ => {
+                            let (a, _) = self.ex(&m.args[0], env, st, Some(Ty::Arr(el.clone())))?;
+                            (format!("(Rt.hvExtendOk {} {} {})", paren(cap), paren(&r), paren(&a)), Ty::Opt(Box::new(Ty::Unit)), format!("(Rt.hvExtend {} {} {})", paren(cap), paren(&r), paren(&a)))
+                        }
+                    };
+                    // the result is computed from the old value, then the place is updated
+                    let rn = if rty == Ty::Unit {
+                        "()".to_string()
+                    } else {
+                        let n = self.fresh();
+                        st.push((n.clone(), Rhs::Pure(res)));
+                        n
+                    };
+                    st.push((lean_ident(&root), Rhs::Pure(update_term(&lean_ident(&root), &fields, &newv))));
+                    Ok((rn, rty))
+                }
+                _ => Err(format!("unsupported heapless::Vec method {}", name)),
             },
             Ty::Bool => Err(format!("unsupported bool method {}", name)),
             _ => Err(format!("unsupported method {} on {:?}", name, tr)),
